@@ -490,6 +490,7 @@ func runStreams(c *Ctx, prop string) {
 		}
 	}
 	if prop == "C06" {
+		c06Inflated(c)
 		c06Proxy(c)
 		c17Mux(c, "C06") // HttpBody uploads against small chunk sizes: every chunk, in order, nothing lost at the end
 	}
@@ -1139,6 +1140,49 @@ func c06Proxy(c *Ctx) {
 				}
 				if !ok {
 					c.SpecFail("proxy-sequence", in, fmt.Sprintf("backend got %d messages, end-of-stream=%v; client: %s hung=%v", len(gotMsgs), closed, out.String(), out.hung), fmt.Sprintf("%d messages in order, then end-of-stream; status OK", nmsg), "C06/proxy/"+sh.name+"/sequence", "the backend behind the proxy does not receive the client's message sequence followed by a clean end-of-stream")
+				}
+			}
+		}
+	}
+}
+
+// c06Inflated: a compressed gRPC / gRPC-web message that inflates past a (small) receive limit,
+// made of 4-byte fields so that ANY cut at a multiple of 4 still parses, between two valid
+// messages: whatever the handler receives must be a message the client sent — a message cut
+// down to the limit is a fabricated one.
+func c06Inflated(c *Ctx) {
+	const limit = 64
+	sfx, err := newStreamFx(larking.MaxReceiveMessageSizeOption(limit))
+	if err != nil {
+		c.SpecFail("fixture", "c06 inflated", err.Error(), "registered", "C06/fixture", "fixture")
+		return
+	}
+	fx := sfx.fx
+	mk := func(n int) []byte {
+		m := fx.NewMsg("Req")
+		l := m.Mutable(m.Descriptor().Fields().ByName("rs")).List()
+		for k := 0; k < n; k++ {
+			l.Append(protoreflect.ValueOfString("e"))
+		}
+		b, _ := proto.Marshal(m)
+		return b
+	}
+	for _, tr := range []string{"application/grpc+proto", "application/grpc-web+proto"} {
+		for _, n := range []int{limit/4 + 1, limit/4 + 3, 2 * limit} {
+			first, big, last := mk(2), mk(n), mk(3)
+			wire := append(append(grpcFrame(1, gzipBytes(first)), grpcFrame(1, gzipBytes(big))...), grpcFrame(1, gzipBytes(last))...)
+			sfx.reset(nil)
+			_, pn := sfx.serveStream("POST", "/verif.v1.Svc/Up", map[string]string{"Content-Type": tr, "Grpc-Encoding": "gzip"}, wire, nil, false, tr == "application/grpc+proto")
+			in := fmt.Sprintf("%s receive limit %d: gzip messages of %d, %d (over the limit once inflated) and %d bytes, all of 4-byte fields", tr, limit, len(first), len(big), len(last))
+			c.Eval("grpc-inflated", in, true)
+			if pn != nil {
+				c.SpecFail("grpc-inflated", in, fmt.Sprint("panic: ", pn), "an error status", "C06/grpc-inflated/panic", "panic")
+				continue
+			}
+			for k, sz := range sfx.gotSizes {
+				if sz != len(first) && sz != len(last) && sz != len(big) || k == 0 && sz != len(first) {
+					c.SpecFail("grpc-inflated", in, fmt.Sprintf("message %d of %d bytes; sizes received: %v", k, sz, sfx.gotSizes), fmt.Sprintf("only messages the client sent (%d, then an error for the one over the limit)", len(first)), "C06/grpc-inflated/fabricated-message", "the handler received a message the client never sent: an over-limit message cut down to the limit")
+					break
 				}
 			}
 		}
